@@ -27,6 +27,20 @@ def decoder_roles(rep, rule, c, subject_text):
     loops = [L for L in c.t.loops.values() if L.kind == 'gen' and
              c.norm(L.iter) == c.parse("self.bus.memory_map.window_patterns()")]
     if len(loops) != 1:
+        # named wrong shape: subordinates paired with windows by *position* (insertion order vs address order)
+        for L in c.t.loops.values():
+            seq = c.norm(L.seq) if L.seq is not None else None
+            zipped = seq is not None and seq[0] == 'call' and seq[1] == ('name', 'zip') and \
+                any(a == c.parse("self.bus.memory_map.window_patterns()") for a in seq[2])
+            if L.kind == 'enum' and (seq == c.parse("self.bus.memory_map.window_patterns()") or zipped) or L.kind == 'seq' and zipped:
+                positional = any(x[0] == 'sub' and x[2] == ('idx', L.id) and x[1][0] == 'attr' and x[1][1] == ('name', 'self')
+                                 for d in c.t.drivers for x in ir.walk(c.norm(d.target)))
+                if positional or zipped:
+                    rep.bad(rule, site, "subordinate looked up by the window's map",
+                            "subordinates are paired with window_patterns() by position: windows are reported in address order, "
+                            "subordinates are stored in the order they were added, so strobes reach the wrong subordinate when "
+                            "windows are added out of address order")
+                    return None
         rep.unk(rule, site, "loop over self.bus.memory_map.window_patterns()",
                 f"found {len(loops)} such loops: the decoder must decode with the patterns of the map it publishes")
         return None
@@ -280,3 +294,50 @@ def _lin_show(d):
     for k, v in d.items():
         parts.append((f"{v}*" if v != 1 else "") + (ir.show(k) if k is not None else "1"))
     return " + ".join(parts) or "0"
+
+
+def align_up(rep, idx, rule):
+    """MemoryMap._align_up(value, alignment): the result is a multiple of 2**alignment, equal to value when value already
+    is one, and otherwise value plus an adjustment of the form P - value % P (so it is the *next* multiple).
+    Decided by reduction modulo P = 2**alignment on the extracted expression."""
+    from .common import get_fn
+    c = get_fn(idx, "MemoryMap._align_up")
+    site = c.fi.site
+    rep.analysed(site)
+    rets = [c.norm(v) for v, gen, ln in c.t.returns]
+    P = c.parse("1 << alignment")
+    M = c.norm(('bin', '-', P, ('const', 1)))
+    if len(rets) != 1:
+        rep.unk(rule, site, "_align_up result", f"{len(rets)} return statements")
+        return
+    r = rets[0]
+    aligned_test = c.parse("value % (1 << alignment) != 0")
+    if r[0] == 'phi' and ir.split_neg(r[1])[0] == ir.split_neg(aligned_test)[0]:
+        pol = ir.split_neg(r[1])[1] == ir.split_neg(aligned_test)[1]
+        adj, keep = (r[2], r[3]) if pol else (r[3], r[2])
+        rep.check(keep == ('name', 'value'), rule, site, "_align_up leaves an already aligned value unchanged",
+                  f"returns {ir.show(keep)} when value % 2**alignment == 0")
+        m = _modR(adj, P, M)
+        if m is None:
+            rep.unk(rule, site, "_align_up result is a multiple of 2**alignment", f"cannot reduce {ir.show(adj)[:100]}")
+        else:
+            rep.check(m == {}, rule, site, "_align_up result is a multiple of 2**alignment",
+                      f"modulo 2**alignment the adjusted value reduces to {_lin_show(m)}, not 0")
+        want = c.parse("value + ((1 << alignment) - value % (1 << alignment))")
+        if adj == want:
+            rep.ok(rule, site, "_align_up moves to the next multiple (adjustment = P - value % P, between 1 and P - 1)", ir.show(adj)[:100])
+        elif adj == c.parse("value - value % (1 << alignment)"):
+            rep.bad(rule, site, "_align_up moves to the next multiple", f"{ir.show(adj)[:100]} rounds *down*: the range would start before the "
+                    "placement cursor / be smaller than requested")
+        elif m == {}:
+            rep.unk(rule, site, "_align_up moves to the next multiple", f"{ir.show(adj)[:100]} is a multiple but not of the verified form")
+    else:
+        alt = [c.parse("((value + (1 << alignment) - 1) // (1 << alignment)) * (1 << alignment)"),
+               c.parse("(value + (1 << alignment) - 1) & ~((1 << alignment) - 1)"),
+               c.parse("-(-value // (1 << alignment)) * (1 << alignment)")]
+        if r in alt:
+            rep.ok(rule, site, "_align_up rounds up to a multiple of 2**alignment (closed form)", ir.show(r)[:100])
+            rep.ok(rule, site, "_align_up leaves an already aligned value unchanged", "closed form", nontrivial=False)
+            rep.ok(rule, site, "_align_up moves to the next multiple", "closed form", nontrivial=False)
+        else:
+            rep.unk(rule, site, "_align_up result", f"unrecognised shape {ir.show(r)[:120]}")
